@@ -471,6 +471,19 @@ class UserSecurityModel(
             # See https://tools.ietf.org/html/rfc3414#section-3.1
             raise UnknownUser(f"Unknown user {security_name!r}")
 
+        if (
+            credentials.auth is not None
+            and security_params.authoritative_engine_id
+            not in self.local_config
+        ):
+            # The keys of a user are localised to the engine we talk to. A
+            # message naming another authoritative engine would be verified
+            # with the key localised to *that* engine, which other engines
+            # knowing the same user are able to produce.
+            raise AuthenticationError(
+                "Incoming message comes from an unknown engine "
+                f"({security_params.authoritative_engine_id!r})"
+            )
         verify_authentication(message, credentials, security_params)
         if credentials.auth is not None and not (
             message.header.flags.auth
